@@ -23,7 +23,7 @@ func placeLegit(r *hx.Rng, ch *Chain, alloc *coordAlloc) []*ref.Op {
 }
 
 func checkC01(c *hx.Ctx) {
-	c.Rule("legitimate chain L (create + 1..8 random update/recover steps, optional final deactivate; key types drawn from all five; sha2-256 and sha2-512) and a multiset F of unauthorised operations (stranger key, wrong signer, tampered signature, altered signed payload, reveal/key mismatch, foreign signed suffix, swapped delta, copies of the owner's own operations with the genuine signature over another payload) aimed at the commitment in force at each step plus later duplicate creates, anchored at arbitrary positions (also immediately before the legitimate operation, before the create, and unpublished); oracle Resolve(L+F)==Resolve(L) and ==reference model; non-trivial = F contains an operation that reveals a commitment of L or is a later create")
+	c.Rule("legitimate chain L (create + 1..8 random update/recover steps, optional final deactivate; key types drawn from all five; sha2-256 and sha2-512) and a multiset F of unauthorised operations (stranger key, wrong signer, tampered signature, altered signed payload, reveal/key mismatch, foreign signed suffix, swapped delta, copies of the owner's own operations with the genuine signature over another payload) aimed at the commitment in force at each step plus later duplicate creates, anchored at arbitrary positions (also immediately before the legitimate operation, before the create, and unpublished); oracle Resolve(L+F)==Resolve(L) and ==reference model; the owner's operations and a stranger's (cut into the same batch behind the owner's and deferred, anchored on their own, or as unprocessable transactions in the same ledger notification) through the REAL operation handler, observer and transaction processor: same resolution as a twin node that saw the owner's operations only; non-trivial = F contains an operation that reveals a commitment of L or is a later create")
 	c.Assume("forged operations are exactly those failing the authorisation test; operation lists in the result are not compared")
 	nCases := c.N(1500, 40000)
 	root := c.Rng("cases")
@@ -282,6 +282,9 @@ func checkC01(c *hx.Ctx) {
 			}
 		}
 	})
+	c01ThroughPipeline(c)
+	c.Floor("pipeline_runs_with_stranger_operations_in_the_owners_batch", 20)
+	c.Floor("pipeline_runs_with_unprocessable_neighbour_transactions", 20)
 	c.Floor("exhaustive_placements", 5000)
 	c.Floor("rebuilt_store_histories_through_one_processor", 100)
 	c.Floor("histories_crossing_the_genesis_of_a_stricter_version", 100)
